@@ -824,6 +824,7 @@ package eventbus
 //@   at unlock:MemoryStore.mu assert [C10.read.r1] posOf(log(m), from) + len(result) <= logLen(log(m))
 //@   at unlock:MemoryStore.mu assert [C10.read.r2a] len(result) > 0 ==> readP(m, result) + len(result) <= len(m.events) &&
 //@        (forall k int :: {result[k]} 0 <= k && k < len(result) ==> result[k] == m.events[readP(m, result) + k] && result[k] != nil)
+//@   at unlock:MemoryStore.mu assert [C10.read.r2b] len(result) > 0 ==> (forall k int :: {result[k]} 0 <= k && k < len(result) ==> result[k] == logAt(log(m), readP(m, result) + k) && result[k] != nil)
 //@   at unlock:MemoryStore.mu assert [C10.read.r2] forall k int :: {result[k]} 0 <= k && k < len(result) ==> result[k] == logAt(log(m), posOf(log(m), from) + k) && result[k] != nil
 //@   at unlock:MemoryStore.mu assert [C10.read.r4] (limit <= 0 || len(result) < limit) ==> posOf(log(m), from) + len(result) == logLen(log(m))
 //@   at unlock:MemoryStore.mu assert [C10.read.r5a] len(result) > 0 ==> lastOffset == offAt(log(m), posOf(log(m), from) + len(result) - 1) && lastOffset == m.events[posOf(log(m), from) + len(result) - 1].Offset
